@@ -127,6 +127,10 @@ func getLogoutRequestFromRequest(r *http.Request) (*LogoutRequestForm, error) {
 		Encoding:      r.Form.Get("SAMLEncoding"),
 		RelayState:    r.Form.Get("RelayState"),
 	}
+	// a request in the URL query uses the redirect binding, whose default encoding is DEFLATE
+	if _, ok := r.URL.Query()["SAMLRequest"]; ok && request.Encoding == "" {
+		request.Encoding = xml.EncodingDeflate
+	}
 
 	return request, nil
 }
